@@ -217,6 +217,26 @@ type recorder struct {
 	ledgerAhead           int64
 	lastAheadHeight       map[int]uint32 // node -> the height dBFT was initialised for by such an event
 	commitsAfterBurstInit int64
+	// the receive boundary: every payload handed to a node is decoded the way
+	// its service will decode it (own lock: deliveries are many)
+	rmu         sync.Mutex
+	recvDecoded int64
+	cvReasons   map[string]int64     // ChangeView payloads received, by reason
+	undecodable map[string]*undecRec // "<type>[:<reason>]" -> first payload of an honest sender no receiver could decode
+}
+
+// undecRec is a payload that left an honest sender's encoder and failed to
+// decode at a receiver.
+type undecRec struct {
+	Type      string `json:"type"`
+	Reason    string `json:"change_view_reason,omitempty"`
+	Receiver  int    `json:"receiver"`
+	Validator int    `json:"sender_validator_index"`
+	Height    uint32 `json:"height"`
+	View      int    `json:"view"`
+	Err       string `json:"error"`
+	Raw       string `json:"payload_hex"`
+	Count     int64  `json:"deliveries_that_failed_to_decode"`
 }
 
 type afterCommitRec struct {
@@ -237,7 +257,8 @@ type sentCommit struct {
 
 func newRecorder() *recorder {
 	return &recorder{txs: map[util.Uint256]*txRec{}, msgTypes: map[string]int64{}, maxView: map[uint32]byte{}, commitViews: map[uint32]map[byte]bool{}, logs: map[string]int64{}, xpRejects: map[string]int64{},
-		sentCommits: map[int]map[uint32][]sentCommit{}, timerSent: map[int]int64{}, typeSent: map[int]map[string]int64{}, lastAheadHeight: map[int]uint32{}}
+		sentCommits: map[int]map[uint32][]sentCommit{}, timerSent: map[int]int64{}, typeSent: map[int]map[string]int64{}, lastAheadHeight: map[int]uint32{},
+		cvReasons: map[string]int64{}, undecodable: map[string]*undecRec{}}
 }
 
 func (r *recorder) nextSeq() int64 { r.seq++; return r.seq }
@@ -314,6 +335,9 @@ type cluster struct {
 	multi neotest.Signer
 	magic netmode.Magic
 	pcfg  func(*config.Blockchain)
+	// transactions no peer hands out on request (losttx_test.go): the relay
+	// path of that one transaction is broken
+	withheld sync.Map // util.Uint256 -> struct{}
 }
 
 // sortedKeys derives n deterministic keys ordered by public key, so that node
@@ -806,6 +830,7 @@ func (nd *node) onExtensibleRaw(raw []byte) {
 		nd.cl.rec.panicked("decode extensible", r.Err)
 		return
 	}
+	nd.observeReceived(raw, &q)
 	if nd.xp != nil {
 		ok, err := nd.xp.Add(&q)
 		if err != nil {
@@ -834,6 +859,51 @@ func (nd *node) onExtensibleRaw(raw []byte) {
 		}
 	}
 	_ = nd.srv.OnPayload(&q)
+}
+
+var msgTypeNames = map[byte]string{0x00: "ChangeView", 0x20: "PrepareRequest", 0x21: "PrepareResponse", 0x30: "Commit", 0x31: "PreCommit", 0x40: "RecoveryRequest", 0x41: "RecoveryMessage"}
+
+// observeReceived decodes a delivered payload the way the receiving service
+// will (consensus.Payload over the extensible envelope). Every sender is an
+// honest node and the bytes are what its encoder produced, so a failure is a
+// disagreement between encoder and decoder.
+func (nd *node) observeReceived(raw []byte, q *npayload.Extensible) {
+	p := consensus.NewPayload(nd.cl.magic, nd.cl.cfg.SRIH)
+	r := io.NewBinReaderFromBuf(raw)
+	p.DecodeBinary(r)
+	rec := nd.cl.rec
+	rec.rmu.Lock()
+	defer rec.rmu.Unlock()
+	if r.Err == nil {
+		rec.recvDecoded++
+		if p.Type() == dbft.ChangeViewType {
+			rec.cvReasons[p.GetChangeView().Reason().String()]++
+		}
+		return
+	}
+	u := &undecRec{Type: "unknown", Receiver: nd.idx, Validator: -1, View: -1, Err: r.Err.Error(), Raw: hex.EncodeToString(raw)}
+	if d := q.Data; len(d) >= 7 {
+		// the fixed message header: type, height, validator, view
+		u.Type = msgTypeNames[d[0]]
+		if u.Type == "" {
+			u.Type = fmt.Sprintf("type-0x%02x", d[0])
+		}
+		u.Height = uint32(d[1]) | uint32(d[2])<<8 | uint32(d[3])<<16 | uint32(d[4])<<24
+		u.Validator, u.View = int(d[5]), int(d[6])
+		if d[0] == 0x00 && len(d) >= 16 { // ChangeView: timestamp (8), reason (1)
+			u.Reason = dbft.ChangeViewReason(d[15]).String()
+		}
+	}
+	k := u.Type
+	if u.Reason != "" {
+		k += ":" + u.Reason
+	}
+	if old := rec.undecodable[k]; old != nil {
+		old.Count++
+		return
+	}
+	u.Count = 1
+	rec.undecodable[k] = u
 }
 
 // relayBlock is the block queue's relay callback: the block was accepted by
@@ -886,6 +956,10 @@ func (nd *node) requestTx(hs ...util.Uint256) {
 		peer := nd.cl.nodes[j]
 		nd.cl.net.send(nd.idx, j, "getdata", "", -1, func() {
 			for _, h := range want {
+				if _, broken := nd.cl.withheld.Load(h); broken {
+					nd.cl.net.count("tx_requests_not_answered_for_a_withheld_tx", 1)
+					continue
+				}
 				if tx, ok := peer.bc.GetMemPool().TryGetValue(h); ok {
 					raw := tx.Bytes()
 					nd.cl.net.send(peer.idx, nd.idx, "tx", "", -1, func() { nd.onTxRaw(raw, true) })
